@@ -1,0 +1,54 @@
+//go:build verif
+
+// Contracts for govc (contract-based deductive verification); comment-only, compiled only with -tags verif.
+package aggoracle
+
+// ---- the GER oracle (C15). Boundaries (assumed, A8): the L1 client (sampledFinal records every block number it
+// returned for the configured finality, lastSampled the most recent one), the L1 info tree syncer (latestGerUntil(b)
+// is the most recent global exit root at or below block b) and the L2 sender (gerInjected, lastInjected, injectCalls).
+//@ ghost var sampledFinal map[int]bool
+//@ ghost var lastSampled int
+//@ spec fn latestGerUntil(b int) Hash
+//@ ghost var gerInjected map[Hash]bool
+//@ ghost var lastInjected Hash
+//@ ghost var injectCalls int
+
+//@ interface github.com/ethereum/go-ethereum.ChainReader.HeaderByNumber (self, ctx, number)
+//@   modifies sampledFinal, lastSampled
+//@   ensures result1 != nil ==> sampledFinal == old(sampledFinal) && lastSampled == old(lastSampled)
+//@   ensures result1 == nil ==> result0 != nil && result0.Number != nil && 0 <= bigval(result0.Number) && bigval(result0.Number) < 18446744073709551616 && lastSampled == bigval(result0.Number) && sampledFinal == upd(old(sampledFinal), bigval(result0.Number), true)
+
+//@ interface github.com/agglayer/aggkit/aggoracle.L1InfoTreer.GetLatestInfoUntilBlock (self, ctx, blockNum)
+//@   modifies nothing
+//@   ensures result1 != nil ==> result0 == nil
+//@   ensures result1 == nil ==> result0 != nil && result0.BlockNumber <= blockNum && result0.GlobalExitRoot == latestGerUntil(blockNum)
+
+//@ interface github.com/agglayer/aggkit/aggoracle.ChainSender.IsGERInjected (self, ger)
+//@   modifies nothing
+//@   ensures result1 == nil ==> result0 == gerInjected[ger]
+
+//@ interface github.com/agglayer/aggkit/aggoracle.ChainSender.InjectGER (self, ctx, ger)
+//@   modifies gerInjected, lastInjected, injectCalls
+//@   ensures injectCalls == old(injectCalls) + 1 && lastInjected == ger
+//@   ensures result == nil ==> gerInjected == upd(old(gerInjected), ger, true)
+
+//@ func (a *AggOracle) getLastFinalizedGER
+//@   props C15
+//@   requires a != nil && a.l1Client != nil && a.l1Info != nil
+//@   requires targetBlockNum != 0 ==> sampledFinal[targetBlockNum]
+//@   modifies sampledFinal, lastSampled
+//@   ensures[root-at-or-below-a-finalized-block] result2 == nil ==> result0 == 0 && result1 == latestGerUntil(ite(targetBlockNum != 0, targetBlockNum, lastSampled)) && sampledFinal[ite(targetBlockNum != 0, targetBlockNum, lastSampled)]
+//@   ensures[samples-only-when-no-block-is-pending] targetBlockNum != 0 ==> sampledFinal == old(sampledFinal) && lastSampled == old(lastSampled)
+//@   ensures[retry-keeps-a-finalized-block] (result2 != nil && result0 != 0) ==> sampledFinal[result0]
+//@   ensures[sampled-blocks-stay-sampled] forall(b, int, old(sampledFinal)[b] ==> sampledFinal[b])
+
+//@ func (a *AggOracle) processLatestGER
+//@   props C15
+//@   requires a != nil && a.l1Client != nil && a.l1Info != nil && a.chainSender != nil && a.logger != nil && blockNumToFetch != nil
+//@   requires *blockNumToFetch != 0 ==> sampledFinal[*blockNumToFetch]
+//@   modifies *blockNumToFetch, sampledFinal, lastSampled, gerInjected, lastInjected, injectCalls
+//@   ensures[at-most-one-injection] injectCalls == old(injectCalls) || injectCalls == old(injectCalls) + 1
+//@   ensures[injects-only-a-finalized-current-root] injectCalls == old(injectCalls) + 1 ==> lastInjected == latestGerUntil(ite(old(*blockNumToFetch) != 0, old(*blockNumToFetch), lastSampled)) && sampledFinal[ite(old(*blockNumToFetch) != 0, old(*blockNumToFetch), lastSampled)]
+//@   ensures[never-injects-a-present-root] injectCalls == old(injectCalls) + 1 ==> !old(gerInjected)[lastInjected]
+//@   ensures[missing-root-is-injected-or-an-error] (result == nil && injectCalls == old(injectCalls)) ==> old(gerInjected)[latestGerUntil(ite(old(*blockNumToFetch) != 0, old(*blockNumToFetch), lastSampled))]
+//@   ensures[pending-block-stays-finalized] *blockNumToFetch != 0 ==> sampledFinal[*blockNumToFetch]
